@@ -72,3 +72,39 @@ package generator
 //@   loop 1 invariant res != nil && fresh(res) && len(res.Contents) == $i
 //@   loop 1 invariant forall i int :: 0 <= i && i < $i ==> res.Contents[i] != nil && fresh(res.Contents[i]) && res.Contents[i].Name == fm.files[i].Name
 //@   loop 1.1 invariant x != nil && fresh(x) && x.m != nil && fresh(x.m)
+
+// ---- concurrent persist (property C19): sequential protocol obligations; see DESIGN.md 3.C19 ----
+
+//@ func (p *asyncPostProcess) OnFinished(f func(path string, content []byte) error) error
+//@   requires p != nil
+//@   modifies *
+//@   chan-values-nonnil
+//@   loop 1 invariant chcap(errs) == len($xs) && $spawned == $i && wgadd(wg) == $spawned && sent(processing) == $spawned
+//@   site go assert wgadd(wg) == $spawned + 1
+//@   site go assert sent(processing) == $spawned + 1
+//@   site go assert $spawned < chcap(errs)
+//@   site return assert $quiet
+//@   ensures result == nil ==> $defaultTaken
+//@   worker ensures wgdone(wg) == 1
+//@   worker ensures recvd(processing) == 1
+//@   worker ensures sent(errs) <= 1 && sentNonNil(errs)
+//@   worker ensures $fcalls <= 2
+
+//@ func newAsyncPostProcess(pp backend.PostProcessor) *asyncPostProcess
+//@   ensures result != nil && fresh(result) && result.pp == pp && len(result.jobs) == 0 && result.concurrency >= 1
+
+//@ func (p *asyncPostProcess) Add(path, content string)
+//@   requires p != nil
+//@   ensures len(p.jobs) == old(len(p.jobs)) + 1 && p.jobs[old(len(p.jobs))].Path == path && p.jobs[old(len(p.jobs))].Content == content
+//@   ensures forall k int :: 0 <= k && k < old(len(p.jobs)) ==> p.jobs[k] == old(p.jobs[k])
+//@   modifies p.jobs
+
+// Persist hands OnFinished exactly one job per response item, in order, with that item's content; an item without
+// a name is an error before anything is spawned.
+//@ func (g *Generator) Persist(res *plugin.Response) error
+//@   requires g != nil && res != nil && forall i int :: 0 <= i && i < len(res.Contents) ==> res.Contents[i] != nil
+//@   ensures (exists k int :: 0 <= k && k < len(res.Contents) && (res.Contents[k].Name == nil || *res.Contents[k].Name == "")) ==> result != nil
+//@   modifies *
+//@   loop 1 invariant p != nil && fresh(p) && len(p.jobs) == $i
+//@   loop 1 invariant forall k int :: 0 <= k && k < $i ==> res.Contents[k].Name != nil && *res.Contents[k].Name != "" && p.jobs[k].Content == res.Contents[k].Content
+//@   site call:p.OnFinished assert len(p.jobs) == len(res.Contents) && forall k int :: 0 <= k && k < len(res.Contents) ==> p.jobs[k].Content == res.Contents[k].Content
